@@ -7,7 +7,7 @@ from props.binary import cache_tasks, cache_harness      # noqa: E402
 
 META = {
     'explanation': 'Stream grammar: Start (N upstream replicas, every arrival interleaving, timeouts) and the stateful '
-                   'operators (Fold, KeyedFold, WindowOperator over count and event-time windows) are driven to '
+                   'operators (Fold, KeyedFold, Reorder, FlatMap, joins, WindowOperator over count and event-time windows) are driven to '
                    'Terminate over every grammar-valid symbolic upstream script within the bound; the output word '
                    'is checked against ((Item|Timestamped|Watermark|FlushBatch)* FlushAndRestart)+ Terminate, with '
                    'one FlushAndRestart per input iteration, all results of an iteration before its marker, and '
@@ -20,7 +20,7 @@ META = {
 
 def TASKS(tier):
     return (start_tasks(tier, 'start', progress=False) + fold_tasks(tier, 'fold') + keyed_fold_tasks(tier, 'keyed_fold') +
-            window_op_tasks(tier, 'window_operator') + flat_map_tasks(tier, 'flat_map') +
+            window_op_tasks(tier, 'window_operator') + flat_map_tasks(tier, 'flat_map') + reorder_tasks(tier, 'reorder') +
             [t for t in join_tasks(tier, 'join') if t.params['iters'] > 1] +
             # the binary Start with a cached side input (inside a loop): its output must be a word of the grammar too,
             # also when batch timeouts fire at an iteration boundary
